@@ -429,7 +429,7 @@ def run_all(args, want_props, results):
             row = dict(name=m["name"], suite_passes=suite, checks={})
             for p in props:
                 t0 = time.time()
-                rc, out = sh([os.path.join(VERIF, "check"), p, "--tier", args.tier], cwd=VERIF, timeout=3600)
+                rc, out = sh([os.path.join(VERIF, "check"), p, "--tier", args.tier], cwd=VERIF, timeout=3600, env={"VERIF_NO_SAVED": "1"})
                 fps = [l for l in out.splitlines() if l.startswith("[driver] violation")]
                 row["checks"][p] = dict(rc=rc, wall_s=round(time.time() - t0, 1), first=(fps[0][:300] if fps else out[-300:]))
             killed = [p for p, r in row["checks"].items() if r["rc"] == 1]
